@@ -957,6 +957,8 @@ void quantiles_sketch<T, C, A>::zip_buffer(Level& buf_in, Level& buf_out) {
   static uint32_t next_offset = 0;
   uint32_t rand_offset = next_offset;
   next_offset = 1 - next_offset;
+#elif defined(DATASKETCHES_VERIF)
+  uint32_t rand_offset = random_utils::verif_random_bit();
 #else
   uint32_t rand_offset = random_utils::random_bit();
 #endif
